@@ -295,3 +295,83 @@ def c04_cases(tier, rng):  # noqa: F811
                           disposition=rng.random() < 0.5)
                 cases.append(CancelSilentCase(cfg, 9, who, k))
     return cases
+
+
+class GateCase(SilentCase):
+    """Initial link faults, then a script of phases: ("rounds", n, s2d_open, d2s_open) runs n scheduler rounds with the
+    given link directions open or silent, ("tick", k) lets k timer intervals pass (one round after each).  Finally both
+    directions stay silent while timers keep expiring.  Exercises 'progress resets the count' and partial silence."""
+
+    def __init__(self, cfg, size, faults, phases, tag="c04g"):
+        super().__init__(cfg, size, "both", 10 ** 6, None, tag)
+        self.faults, self.phases = list(faults), list(phases)
+
+    def describe(self):
+        d = super().describe()
+        d.update(faults=[(f.direction, f.index, f.kind, f.arg) for f in self.faults], phases=self.phases)
+        return d
+
+    def run(self):
+        cfg = self.cfg
+        w = World(cfg, self.tag)
+        try:
+            data = bytes((5 * i + 1) % 256 for i in range(self.size))
+            start_transfer(w, data)
+            r = Runner(w, self.faults, max_rounds=10 ** 6)
+            tick = min(cfg.ack_ms, cfg.nak_ms)
+            gate = [True, True]
+
+            def rnd():
+                if not gate[0]:
+                    w.link_s2d.clear()
+                if not gate[1]:
+                    w.link_d2s.clear()
+                r.step_round()
+                if not gate[0]:
+                    w.link_s2d.clear()
+                if not gate[1]:
+                    w.link_d2s.clear()
+            for ph in self.phases:
+                if r.quiescent():
+                    break
+                if ph[0] == "rounds":
+                    gate[0], gate[1] = ph[2], ph[3]
+                    for _ in range(ph[1]):
+                        rnd()
+                else:
+                    for _ in range(ph[1]):
+                        w.advance(tick)
+                        rnd()
+            gate[0] = gate[1] = False
+            for _ in range(6 * (cfg.ack_limit + cfg.nak_limit) + 10):
+                if r.quiescent():
+                    break
+                w.advance(tick)
+                rnd()
+            self.sides = [("source", w.src.ops, w.src.obs), ("dest", w.dst.ops, w.dst.obs)]
+            return self
+        finally:
+            w.close()
+
+
+_base2_c04_cases = c04_cases
+
+
+def c04_cases(tier, rng):  # noqa: F811
+    cases = _base2_c04_cases(tier, rng)
+    for _ in range(150 if tier == "quick" else 2000):
+        N = rng.choice([2, 3, 3, 4])
+        cfg = Cfg(mode=0, max_seg=rng.choice([2, 4]), ack_limit=N, nak_limit=N, imm_nak=rng.random() < 0.4,
+                  closure=rng.random() < 0.5, disposition=rng.random() < 0.3, cktype=rng.choice([3, 15]))
+        faults = []
+        if rng.random() < 0.6:
+            faults.append(Fault("s2d", 0, "drop"))                 # Metadata lost
+        if rng.random() < 0.6:
+            faults.append(Fault("s2d", rng.randint(1, 3), "drop"))   # a File Data PDU / the EOF lost
+        phases = []
+        for _ in range(rng.randint(2, 5)):
+            phases.append(("rounds", rng.randint(1, 8), rng.random() < 0.75, rng.random() < 0.55))
+            if rng.random() < 0.7:
+                phases.append(("tick", rng.randint(1, N - 1)))
+        cases.append(GateCase(cfg, rng.choice([5, 8, 9, 13]), faults, phases))
+    return cases
